@@ -168,6 +168,24 @@ func runC07(r *ev.Run) {
 					rep("ser."+kind+".rewrite", what+" loads to different answers: "+d)
 				}
 				r.Count("roundtrips:"+what, 1)
+				// "removed documents absent from the stream": what was loaded from the stream holds nothing that a Flush
+				// could still drop — flushing the reloaded index and writing it again gives a stream of the same length
+				// (pending tombstones that travelled with the stream, and the entries behind them, would make it shorter)
+				if gen == 1 {
+					if fl, ok := reloaded.(interface{ Flush() error }); ok {
+						if err := fl.Flush(); err == nil {
+							var b3 bytes.Buffer
+							if _, err := reloaded.(interface {
+								WriteTo(io.Writer) (int64, error)
+							}).WriteTo(&b3); err == nil {
+								if b3.Len() != len(data2) {
+									rep("ser."+kind+".removed-documents-in-stream", fmt.Sprintf("the reloaded index writes %d bytes, and %d bytes after a Flush: the stream carried entries that a Flush drops (removed documents)", len(data2), b3.Len()))
+								}
+								r.Count("roundtrips:reloaded-flush-rewrite-same-length", 1)
+							}
+						}
+					}
+				}
 			}
 		}
 		// continuation
